@@ -4,6 +4,6 @@ Require Import ExtrOcamlBasic.
 From Quiver Require Import heap.HeapVm heap.HeapVmFix.
 Extraction Language OCaml.
 Extraction "extracted/heap_model.ml"
-  empty_heap exec_step spawn_process spawn_process_f46 notify_message notify_result notify_spawn
+  empty_heap exec_step spawn_process spawn_process_f46 notify_message notify_result report_await notify_spawn
   compact_locals replace_locals release_orphan_locals fail_result resume_process extract inject
   all_refs proc_refs refs_of rc_at bytes_of mkExec.
